@@ -563,6 +563,26 @@ def innermost_gfapy_frame(exc, repo="/repo"):
     return best or "?"
 
 
+def recursion_cycle_frame(exc, repo="/repo"):
+    """for a RecursionError: a stable representative of the recursion cycle -- the lexicographically smallest
+    '<file>:<function>' among the gfapy frames that occur at least half as often as the most frequent one"""
+    import collections
+    root = os.path.join(os.path.abspath(repo), "gfapy") + os.sep
+    cnt = collections.Counter()
+    tb = exc.__traceback__
+    n = 0
+    while tb is not None and n < 100000:
+        fn = os.path.abspath(tb.tb_frame.f_code.co_filename)
+        if fn.startswith(root):
+            cnt["%s:%s" % (fn[len(root):], tb.tb_frame.f_code.co_name)] += 1
+        tb = tb.tb_next
+        n += 1
+    if not cnt:
+        return "?"
+    top = max(cnt.values())
+    return min(k for k, v in cnt.items() if v * 2 >= top)
+
+
 class Hang(BaseException):
     pass
 
